@@ -508,16 +508,46 @@ impl<T: Send + Sync + 'static> Puppet<T> {
             Message::Terminate => {
                 let _g = env.call("S", &name, "T", json!(0));
                 env.with_inst(ix, |i| i.stopped = true);
+                self.on_stop(&name);
             },
             Message::Error(e) => {
                 let id = env.err_id(&e);
                 let _g = env.call("S", &name, "E", json!(id));
                 env.with_inst(ix, |i| i.stopped = true);
+                self.on_stop(&name);
             },
             Message::Handshake(_) => {
                 let _g = env.call("S", &name, "H", json!(0));
             },
             Message::Data(_) => {},
+        }
+    }
+
+    /// re-entrant scenarios: being stopped, this source may make a sibling that has not greeted yet greet
+    /// at once (members that are linked to each other)
+    fn on_stop(&self, name: &str) {
+        let env = &*self.env;
+        if !env.cfg().reentrant {
+            return;
+        }
+        let pend: Vec<(usize, usize, String)> = {
+            let g = env.lock();
+            g.insts.iter().enumerate().filter(|(_, i)| i.pending).map(|(ix, i)| (ix, i.pup, i.name.clone())).collect()
+        };
+        if pend.is_empty() {
+            return;
+        }
+        let mut opts: Vec<String> = vec!["none".into()];
+        opts.extend(pend.iter().map(|(_, _, n)| format!("kickgreet {n}")));
+        let optr: Vec<&str> = opts.iter().map(|s| s.as_str()).collect();
+        let c = env.decide("onstop", name, &optr);
+        if let Some(n) = c.strip_prefix("kickgreet ") {
+            if let Some((ix, pup, _)) = pend.iter().find(|(_, _, nm)| nm == n) {
+                let k = env.kicker.lock().unwrap_or_else(|e| e.into_inner()).clone();
+                if let Some(k) = k {
+                    k(*ix, *pup, "greet");
+                }
+            }
         }
     }
 
